@@ -9,7 +9,7 @@ import signal
 
 from hypothesis import strategies as st
 
-from .. import regexgen, rng
+from .. import regexgen, rng, safematch
 from ..core import HarnessError, Violation
 
 ID = "C09"
@@ -68,10 +68,27 @@ CORNERS = [
 ]
 
 
+# negated classes whose ranges touch the first / last letter of the generator's alphabet (' ' and '~') or lie
+# entirely outside it; generated 600 times over so that every letter of the complement is drawn
+EDGE_CLASSES = ["[^\\x00- ]", "[^\t- ]", "[^ - ]", "[^~-\\x7f]", "[^~-~]", "[^}-\\x80]", "[^\\x00-!]", "[^ -!]", "[^\\x7f-\\xff]",
+                "[^\\x00-\\x1f]", "[^ ~]", "[^!-}]", "[^\\d -/]", "[^\\w~]", "[^a-zA-Z ]"]
+
+
 def exhaustive(tier):
     for p in CORNERS:
         for script in ([], [0.0] * 64, [1.0] * 64, [0.5, 0.0, 1.0] * 20):
             yield {"text": p, "max_repeat": 32, "seed": None, "rng": script, "corner": True}
+        yield {"text": p, "max_repeat": 32, "seed": 7, "rng": [], "corner": True}
+    for c in EDGE_CLASSES:
+        for seed in (1, 2):
+            yield {"text": c + "{600}", "max_repeat": 32, "seed": seed, "rng": [], "corner": True}
+    # every explicit repeat count 0..130 (the generator's own limit, its multiples and sre's internal opcode numbers
+    # lie in that range), as {k}, {0,k} and {k,}, greedy and lazy, through RegexGenerator and through fake()
+    for k in range(0, 131):
+        for p in ("x{%d}" % k, "x{0,%d}" % k, "(?:ab){%d,%d}?" % (k // 2, k), "^[a-c]{%d,}$" % k):
+            for script in ([1.0] * 8, [0.0] * 8):
+                yield {"text": p, "max_repeat": 32, "seed": None, "rng": script, "corner": True}
+            yield {"text": p, "max_repeat": 32, "seed": k, "rng": [], "corner": True}
 
 
 class _Timeout(Exception):
@@ -118,6 +135,17 @@ def _check_text(case, ctx):
     if re.fullmatch(p, s) is None:
         raise Violation("nonmatch" if kind == "supported" else "unsupported-nonmatch",
                         f"generate({p!r}, max_repeat={case['max_repeat']}) = {s!r} does not fully match")
+    if case.get("corner"):
+        # the same pattern through the public entry point (the library's own, module-level generator)
+        from d42 import fake, schema
+        cm = rng.seeded(case["seed"]) if case.get("seed") is not None else rng.scripted(case.get("rng", []))
+        with cm:
+            try:
+                s2 = fake(schema.str.regex(p))
+            except Exception as e:  # noqa
+                raise Violation("fake-raises", f"fake(schema.str.regex({p!r})) raised {e!r}")
+        if not isinstance(s2, str) or re.fullmatch(p, s2) is None:
+            raise Violation("nonmatch", f"fake(schema.str.regex({p!r})) = {s2!r} does not fully match")
 
 
 def check(case, ctx):
@@ -162,9 +190,14 @@ def check(case, ctx):
         raise Violation("supported-raises", f"generate({p!r}) raised {e!r}")
     if not isinstance(s, str):
         raise Violation("not-a-string", f"generate({p!r}) returned {s!r}")
+    # a quantifier inside a quantifier can make even a successful match astronomically slow, and a match in
+    # the C engine cannot be interrupted: those are matched in a child process that can be killed
+    risky = regexgen.rep_depth(pat["body"]) >= 2
     try:
-        ok = _fullmatch(p, s)
+        ok = safematch.fullmatch(p, s) if risky and len(s) > 12 else _fullmatch(p, s)
     except _Timeout:
+        ok = None
+    if ok is None:
         ctx.label("inconclusive:backtracking")
         return
     if not ok:
@@ -188,8 +221,10 @@ def check(case, ctx):
             raise Violation("supported-raises", f"same generator, later call: generate({q!r}) raised {e!r} "
                                                 f"(after {p!r})")
         try:
-            ok2 = _fullmatch(q, s2)
+            ok2 = safematch.fullmatch(q, s2) if q is p and risky and len(s2) > 12 else _fullmatch(q, s2)
         except _Timeout:
+            continue
+        if ok2 is None:
             continue
         if not ok2:
             raise Violation("nonmatch-after-reuse", f"same generator object, after {p!r} ...: generate({q!r}) = "
@@ -203,6 +238,9 @@ def check(case, ctx):
         v, _ = run(lambda: fake(sch))
     except Exception as e:  # noqa
         raise Violation("fake-raises", f"fake(schema.str.regex({p!r})) raised {e!r}")
+    if risky and isinstance(v, str) and len(v) > 12 and safematch.search(p, v) is None:
+        ctx.label("inconclusive:backtracking")
+        return
     res = validate(sch, v)
     if res.has_errors():
         raise Violation("fake-invalid", f"fake(schema.str.regex({p!r})) = {v!r}: {res.get_errors()!r}")
